@@ -171,6 +171,9 @@ func (b *OutboundBreaker) Do(f func() error) (bool, error) {
 	// log.Printf("OutboundBreaker total %d %v", total, closed)
 	if closed {
 		b.counts[0]++
+		// This call must be counted for one whole interval from
+		// now on (see slide).
+		b.updated = now
 	}
 	b.Unlock()
 	var err error
@@ -255,13 +258,21 @@ func (b *OutboundBreaker) slide(now time.Time) {
 	resolution := b.interval.Nanoseconds() / int64(b.ticks)
 	ticks := int(ns / int64(resolution))
 	if len(b.counts) < ticks {
+		// Everything has aged out.
 		ticks = len(b.counts)
+		b.updated = now
+	} else {
+		// Only whole ticks are accounted for, so only advance
+		// by whole ticks.  Advancing to 'now' would drop the
+		// rest of a tick on every call: a breaker that is
+		// polled more often than once per tick would never
+		// slide (and never close again).
+		b.updated = b.updated.Add(time.Duration(int64(ticks) * resolution))
 	}
 	copy(b.counts[ticks:], b.counts)
 	for i := 0; i < ticks; i++ {
 		b.counts[i] = 0
 	}
-	b.updated = now
 }
 
 // ComboBreaker is a bunch of Breakers considered as one.
